@@ -30,7 +30,6 @@ def sh(cmd, cwd=None, env=None, timeout=3600):
 
 
 def make_copy(dst):
-    rc, out, err = sh(['git', '-C', '/repo', 'archive', '--format=tar', 'HEAD'])
     p = subprocess.run(['git', '-C', '/repo', 'archive', '--format=tar', 'HEAD'], capture_output=True)
     os.makedirs(dst)
     subprocess.run(['tar', '-x', '-C', dst], input=p.stdout, check=True)
@@ -65,8 +64,10 @@ def main():
                         PYTHONHASHSEED='0')
         # demo with / without
         demo = os.path.abspath(os.path.join(a.src, 'demo.py'))
-        shutil.copy(demo, os.path.join(mut, '_demo.py'))
-        shutil.copy(demo, os.path.join(clean, '_demo.py'))
+        src_text = open(demo, encoding='utf-8').read()
+        for tree in (mut, clean):   # the agents' demos may hard-code their worktree path
+            with open(os.path.join(tree, '_demo.py'), 'w', encoding='utf-8') as fh:
+                fh.write(re.sub(r'/tmp/seed/C\d+', tree, src_text))
         rc_m, out_m, err_m = sh([PY, '_demo.py'], cwd=mut, env=env_for(mut), timeout=900)
         rc_c, out_c, err_c = sh([PY, '_demo.py'], cwd=clean, env=env_for(clean), timeout=900)
         meta['demo_with_change_rc'] = rc_m
